@@ -10,6 +10,7 @@ import (
 	"bytes"
 	"encoding/hex"
 	"fmt"
+	"strings"
 	"testing"
 
 	"github.com/gmrtd/gmrtd/bac"
@@ -43,13 +44,18 @@ func TestSelfTest(t *testing.T) {
 type pwKind int
 
 const (
-	pwFull   pwKind = iota // password.NewPasswordMrz(full MRZ)
-	pwFields               // password.NewPasswordMrzi(doc, dob, exp)
+	pwFull          pwKind = iota // password.NewPasswordMrz(full MRZ)
+	pwFields                      // password.NewPasswordMrzi(doc, dob, exp)
+	pwDecodedFields               // the same with the document number in decoded form (fillers as blanks, trailing ones removed)
 )
 
 func makePassword(m chiptest.MRZCase, k pwKind) (*password.Password, error) {
 	if k == pwFull {
 		return password.NewPasswordMrz(m.Full)
+	}
+	if k == pwDecodedFields {
+		// the key fields as a caller holding DECODED values has them: fillers shown as blanks
+		return password.NewPasswordMrzi(strings.ReplaceAll(strings.TrimRight(m.DocNo, "<"), "<", " "), m.DOB, m.Expiry)
 	}
 	return password.NewPasswordMrzi(m.DocNo, m.DOB, m.Expiry)
 }
@@ -70,10 +76,12 @@ type session struct {
 func runBAC(m chiptest.MRZCase, pass *password.Password, chipMRZInfo string, chipRand func(int) []byte, deviate func(string, []byte) []byte) *session {
 	cfg := chipsim.Config{
 		MRZInfo: chipMRZInfo, BAC: true,
-		DF:      map[uint16][]byte{0x0101: dg1File(m.Full)},
-		MF:      map[uint16][]byte{},
-		Rand:    chipRand,
-		Deviate: deviate,
+		// every other session runs over a link that hands out its responses in one reused receive buffer
+		ReuseRxBuffer: len(chipMRZInfo) > 0 && chipRand != nil && chipRand(1)[0]&1 == 1,
+		DF:            map[uint16][]byte{0x0101: dg1File(m.Full)},
+		MF:            map[uint16][]byte{},
+		Rand:          chipRand,
+		Deviate:       deviate,
 	}
 	chip := chipsim.New(cfg)
 	lastChip = chip
@@ -146,7 +154,7 @@ func checkRefused(s *session) string {
 func TestBACInterop(t *testing.T) {
 	evid.RapidCheck(t, 40000, 600000, func(rt *rapid.T) {
 		m := chiptest.DrawMRZ(rt)
-		kind := pwKind(rapid.IntRange(0, 1).Draw(rt, "pwkind"))
+		kind := pwKind(rapid.IntRange(0, 2).Draw(rt, "pwkind"))
 		chipRand := chiptest.DrawRand(rt, "chiprand")
 		restore := chiptest.InstallLibRand(rt, "librand")
 		defer restore()
@@ -393,4 +401,67 @@ func TestBACWrongPassword(t *testing.T) {
 			evid.Fail(rt, "wrong-password", repro, "%s", msg)
 		}
 	})
+}
+
+// TestBACReauthentication: the same BAC object authenticates more than once (a session is lost,
+// the reader re-authenticates).  Every run is a fresh mutual authentication under the MRZ keys:
+// run 2 against the genuine chip must succeed with new session keys, and a counterpart that
+// knows only the SESSION keys of run 1 (not the MRZ) must be refused in run 2.
+func TestBACReauthentication(t *testing.T) {
+	evid.RapidCheck(t, 1600, 40000, func(rt *rapid.T) {
+		m := chiptest.DrawMRZ(rt)
+		kind := pwKind(rapid.IntRange(0, 2).Draw(rt, "pwkind"))
+		chipRand := chiptest.DrawRand(rt, "chiprand")
+		restore := chiptest.InstallLibRand(rt, "librand")
+		defer restore()
+		hostileSecond := rapid.Bool().Draw(rt, "second-run-impostor")
+		pass, err := makePassword(m, kind)
+		repro := map[string]any{"mrz": m.Full, "pwkind": int(kind), "refInfo": m.Info, "secondRunImpostor": hostileSecond}
+		if err != nil {
+			evid.Fail(rt, "reauth-password", repro, "library rejects a valid MRZ / key fields: %v", err)
+		}
+		cfg := chipsim.Config{MRZInfo: m.Info, BAC: true, DF: map[uint16][]byte{0x0101: dg1File(m.Full)}, MF: map[uint16][]byte{}, Rand: chipRand}
+		chip := chipsim.New(cfg)
+		lk := &swapLink{t: chip}
+		nfc := iso7816.NewNfcSession(lk)
+		var doc document.Document
+		b := bac.NewBAC(nfc, &doc, pass)
+		res, err := b.DoBAC()
+		s1 := &session{chip, nfc, res, err}
+		if msg := checkEstablished(s1, m); msg != "" {
+			evid.Fail(rt, "reauth-first", repro, "first run: %s", msg)
+		}
+		ks1enc, ks1mac := bytes.Clone(chip.SM.KEnc), bytes.Clone(chip.SM.KMac)
+		// the session is lost; the reader authenticates again with the same object
+		nfc.SetSecureMessaging(nil)
+		if hostileSecond {
+			icfg := cfg
+			icfg.BACKeyEnc, icfg.BACKeyMac = ks1enc, ks1mac
+			imp := chipsim.New(icfg)
+			lk.t = imp
+			res2, err2 := b.DoBAC()
+			evid.Case("reauth-impostor-with-previous-session-keys", true, m.Info, repro)
+			if msg := checkRefused(&session{imp, nfc, res2, err2}); msg != "" {
+				evid.Fail(rt, "reauth-impostor", repro, "second run against a counterpart holding only the session keys of the first run: %s", msg)
+			}
+			return
+		}
+		chip2 := chipsim.New(cfg)
+		lk.t = chip2
+		res2, err2 := b.DoBAC()
+		evid.Case("reauth-genuine", true, m.Info, repro)
+		if msg := checkEstablished(&session{chip2, nfc, res2, err2}, m); msg != "" {
+			evid.Fail(rt, "reauth-second", repro, "second run of the same BAC object against the genuine chip: %s", msg)
+		}
+		if bytes.Equal(chip2.SM.KEnc, ks1enc) {
+			evid.Fail(rt, "reauth-second", repro, "the second run ended with the session key of the first")
+		}
+	})
+}
+
+// swapLink lets a test exchange the counterpart behind an NfcSession.
+type swapLink struct{ t iso7816.Transceiver }
+
+func (l *swapLink) Transceive(cla, ins, p1, p2 int, data []byte, le int, encoded []byte) []byte {
+	return l.t.Transceive(cla, ins, p1, p2, data, le, encoded)
 }
